@@ -282,9 +282,16 @@ func compareSuffixArrays(a, b []suffix) int {
 		}
 	}
 
-	// If all compared suffixes are equal, the longer array is "smaller"
-	// This means "alpha_pre" < "alpha" (more suffixes = less stable)
-	return compareInt(len(b), len(a))
+	// If all compared suffixes are equal, the first extra suffix decides: against "no suffix" a
+	// pre-release suffix makes the longer version older ("alpha_pre" < "alpha") and a
+	// post-release suffix makes it newer ("hg_p" > "hg")
+	if len(a) > minLen {
+		return compareSuffixes(a[minLen], suffix{name: "", number: 0})
+	}
+	if len(b) > minLen {
+		return compareSuffixes(suffix{name: "", number: 0}, b[minLen])
+	}
+	return 0
 }
 
 // compareSuffixes compares two individual suffixes
